@@ -12,7 +12,7 @@
    [serve_allowed r m p] the responses ServeHTTP may give depending on the order in
    which Go iterates its maps, [serve r m p] the first of them. *)
 From Coq Require Import List String Ascii Bool ZArith.
-From GZ Require Import C09.Model C09.Spec C09.Proofs C09.ServerModel C09.ServerProofs C09.Check C09.SpecProofs C09.History C09.CleanProofs C09.OptionProofs.
+From GZ Require Import C09.Model C09.Spec C09.Proofs C09.ServerModel C09.ServerProofs C09.Check C09.SpecProofs C09.History C09.CleanProofs C09.OptionProofs C09.Target C09.TargetProofs.
 Import ListNotations.
 Open Scope string_scope.
 
@@ -648,3 +648,67 @@ Example ex_binding :
   = [("/v1/users/:id", RegOk); ("/v1/users", RegOk); ("/v1/users", RegDuplicate)] /\
   spec_regs tables (map plain_event evs) 0 = spec_regs tables evs 0.
 Proof. vm_compute. split; reflexivity. Qed.
+
+(* ====================================================================== round 4b: the request target (Target.v)
+   [parse_target t] = (URL.Path, URL.RawPath) as net/http + net/url compute them for an origin-form target
+   (control bytes refused, query cut at the first '?', percent-decoding, RawPath kept iff the spelling is not the
+   default encoding); [serve_target r m t] = ServeHTTP on that request line (None: refused by net/http).
+   Compared with Go's Path / RawPath on every request of the "target" cases. *)
+
+(* two well-formed targets that decode to the same path — whatever their spelling (which characters are escaped,
+   upper / lower-case hex), their query strings, and whether net/url kept a RawPath — get the same route, the same
+   variables and the same 404 / 405 / Allow, for every router (and for every map order) *)
+Theorem dispatch_depends_on_decoded_path_only : forall r m t1 t2,
+  has_ctl t1 = false -> origin_form t1 = true -> has_ctl t2 = false -> origin_form t2 = true ->
+  unescape (before_query t1) = unescape (before_query t2) ->
+  serve_target r m t1 = serve_target r m t2 /\
+  option_map (fun pr => serve_allowed r m (routed_path pr)) (parse_target t1) =
+  option_map (fun pr => serve_allowed r m (routed_path pr)) (parse_target t2).
+Proof. exact L_dispatch_depends_on_decoded_path_only. Qed.
+Print Assumptions dispatch_depends_on_decoded_path_only.
+
+Theorem target_is_served_as_its_decoded_path : forall r m t p raw, parse_target t = Some (p, raw) ->
+  serve_target r m t = Some (serve r m p).
+Proof. exact L_serve_target_is_serve_decoded. Qed.
+Print Assumptions target_is_served_as_its_decoded_path.
+
+Theorem parsed_target_is_the_decoded_path : forall t p raw, parse_target t = Some (p, raw) ->
+  has_ctl t = false /\ origin_form t = true /\ unescape (before_query t) = Some p /\
+  (raw = "" \/ raw = before_query t).
+Proof. exact L_parse_target_path. Qed.
+Print Assumptions parsed_target_is_the_decoded_path.
+
+(* the variables the handler gets are the segments of the DECODED, cleaned path bound by the best route for it *)
+Theorem decoded_variables_are_decoded_segments : forall nf na regs m t p raw segs h ps,
+  one_var_name_per_position (table_of regs) = true ->
+  parse_target t = Some (p, raw) -> clean_path p = Some segs ->
+  serve_target (router_of nf na regs) m t = Some (RHandler h ps) ->
+  exists rt, is_best (table_of regs) m segs rt /\ th rt = h /\ ps = binds (tpat rt) segs.
+Proof. exact L_decoded_variables_are_decoded_segments. Qed.
+Print Assumptions decoded_variables_are_decoded_segments.
+
+(* net/url's default encoding decodes to what was encoded and leaves no RawPath: every rooted path is the
+   decoded path of a target (so the theorems about [serve r m p] speak about real requests) *)
+Theorem unescape_escape : forall s, unescape (escape s) = Some s.
+Proof. exact L_unescape_escape. Qed.
+Print Assumptions unescape_escape.
+
+Theorem default_encoding_has_no_rawpath : forall p, origin_form p = true -> parse_target (escape p) = Some (p, "").
+Proof. exact L_default_encoding_no_rawpath. Qed.
+Print Assumptions default_encoding_has_no_rawpath.
+
+Theorem every_path_has_a_target : forall r m p, origin_form p = true ->
+  serve_target r m (escape p) = Some (serve r m p).
+Proof. exact L_every_path_has_a_target. Qed.
+Print Assumptions every_path_has_a_target.
+
+Example ex_targets :
+  let r := router_of false false [mkReg "GET" "/files/readme" 0%Z; mkReg "GET" "/files/:name" 1%Z; mkReg "GET" "/b" 2%Z] in
+  parse_target "/files/%72eadme?x=%zz" = Some ("/files/readme", "/files/%72eadme") /\
+  serve_target r "GET" "/files/%72eadme?x=%zz" = Some (RHandler 0%Z []) /\
+  serve_target r "GET" "/files/a%2Fb" = Some RNotFound /\
+  serve_target r "GET" "/files/%2e%2E/b/" = Some (RHandler 2%Z []) /\
+  serve_target r "GET" "/files/%3aid" = Some (RHandler 1%Z [("name", ":id")]) /\
+  serve_target r "GET" "/files/%zz" = None /\
+  parse_target "/files/a b" = Some ("/files/a b", "/files/a b") /\ parse_target "/b?" = Some ("/b", "").
+Proof. vm_compute. repeat split. Qed.
